@@ -2,6 +2,8 @@
   C16 — DigitalWaveform.test reports exactly the incompatible (sample, signal) positions.
 -/
 import NiVerif.Model.DigitalTest
+import NiVerif.Gen.Geometry
+import NiVerif.Proofs.Bits
 
 namespace Props.C16
 open Model.DigitalTest Gen.DigitalState
@@ -271,5 +273,31 @@ theorem char_roundtrip :
 -- non-vacuity: a concrete window with one failure in each row
 example : Model.DigitalTest.test ⟨[[0, 1], [2, 3]], 2⟩ ⟨[[3, 3], [6, 4]], 2⟩ (some 0) (some 0) (some 2)
     = .ok [⟨0, 0, 0, 1, 3⟩, ⟨1, 1, 0, 3, 4⟩] := by rfl
+
+/-! ### the tie by proof for the argument checks of `DigitalWaveform.test` (Gen/Geometry `digital_test_window`, translator tier T5) -/
+
+theorem argToUintOpt_some' (x : Option Int) (d : Int) : Py.argToUintOpt x (some d) = Model.DigitalTest.argToUint x d := by
+  cases x <;> simp [Py.argToUintOpt, Py.argToUint, Model.DigitalTest.argToUint]
+
+/-- `waveform.test(...)` of the model is: the window check regenerated from the source, then the comparison loops over the validated
+    window - for all waveforms and all (optional) arguments -/
+theorem gen_test_window_eq_model (a e : Model.DigitalTest.W) (start expStart count : Option Int) :
+    Model.DigitalTest.test a e start expStart count
+      = (Gen.Geometry.digital_test_window start expStart count a.rows.length a.nsig e.rows.length e.nsig).bind
+          (fun g => Model.DigitalTest.sampleLoop a e g.2.2.toNat g.1 g.2.1) := by
+  unfold Model.DigitalTest.test Gen.Geometry.digital_test_window
+  simp only [argToUintOpt_some', Model.DigitalTest.argToUint]
+  cases start <;> cases expStart <;> cases count <;>
+    simp only [Option.getD, Proofs.bind_ite, Proofs.bind_ok, Proofs.bind_error] <;>
+    (repeat' split) <;> first | rfl | (exfalso; omega) | (simp_all <;> omega)
+
+/-- an accepted test window lies inside both waveforms and the signal counts agree -/
+theorem gen_test_window_inside (s es n : Option Int) (na sa ne se : Int) (g : Int × Int × Int)
+    (h : Gen.Geometry.digital_test_window s es n na sa ne se = .ok g) :
+    0 ≤ g.1 ∧ 0 ≤ g.2.1 ∧ 0 ≤ g.2.2 ∧ g.1 + g.2.2 ≤ na ∧ g.2.1 + g.2.2 ≤ ne ∧ sa = se := by
+  unfold Gen.Geometry.digital_test_window at h
+  simp only [argToUintOpt_some', Model.DigitalTest.argToUint] at h
+  cases s <;> cases es <;> cases n <;> simp only [Option.getD, Proofs.bind_ite, Proofs.bind_ok, Proofs.bind_error] at h <;>
+    (repeat' split at h) <;> (cases h <;> dsimp only <;> omega)
 
 end Props.C16
